@@ -117,9 +117,43 @@ def t1_t2(repo, res, roots, pid_rule_prefix="", lazy=LAZY_INIT, ctor_ok=CTOR_OK,
     return g, seen
 
 
+def t6(repo, res, g, seen):
+    """T6 no module-level (session-wide) mutable state is written by a field computation: a store / mutator call on a name that is bound
+    at module level (a dict or list used as a hand-made cache or registry) in any function reachable from the entry points.  Such state
+    outlives the call, is shared by all objects and makes a later, identical computation depend on what was computed before.
+    (`functools.lru_cache` keyed by the function object is not a write of this kind.)"""
+    MUT = {"append", "extend", "update", "pop", "remove", "clear", "insert", "setdefault", "popitem", "add", "discard"}
+    n = 0
+    for fid in sorted(seen):
+        node = g.nodes[fid]
+        fn_, mod = node.node, node.mod
+        local = {a.arg for a in fn_.args.posonlyargs + fn_.args.args + fn_.args.kwonlyargs}
+        for x in ast.walk(fn_):
+            if isinstance(x, (ast.Assign, ast.AugAssign, ast.For, ast.comprehension, ast.With)):
+                for t in ast.walk(x.targets[0] if isinstance(x, ast.Assign) else (x.target if hasattr(x, "target") else x)):
+                    if isinstance(t, ast.Name) and isinstance(t.ctx, ast.Store):
+                        local.add(t.id)
+        glob = {nm for nm, v in mod.assigns.items() if isinstance(v, (ast.Dict, ast.List, ast.Set)) or (isinstance(v, ast.Call) and getattr(v.func, "id", "") in ("dict", "list", "set", "defaultdict", "OrderedDict"))}
+        glob -= local
+        for x in ast.walk(fn_):
+            hit = None
+            if isinstance(x, (ast.Assign, ast.AugAssign)):
+                for t in (x.targets if isinstance(x, ast.Assign) else [x.target]):
+                    if isinstance(t, ast.Subscript) and isinstance(t.value, ast.Name) and t.value.id in glob:
+                        hit = t.value.id
+            if isinstance(x, ast.Call) and isinstance(x.func, ast.Attribute) and x.func.attr in MUT and isinstance(x.func.value, ast.Name) and x.func.value.id in glob:
+                hit = x.func.value.id
+            if hit:
+                n += 1
+                res.add(Finding("T6", mod.rel, fid.split(":")[1], x, f"the module-level container `{hit}` is written on the field-computation path: session-wide state that "
+                                "survives the call (also a failing one) and changes what later computations do", x.lineno))
+    res.ob("T6:no module-level mutable state written on the field path", n == 0, {"rule": "T6", "functions_scanned": len(seen), "instances": n}, nontrivial=False)
+
+
 def run(repo, res, tier):
-    res.rules = ["T1 swap-restore on all exits", "T2 who-may-write on the field path", "T3 caller arrays and shared tables reach no in-place sink", "T4 method forms leave the receiver unchanged", "T5 no read-only view left in an object"]
+    res.rules = ["T1 swap-restore on all exits", "T2 who-may-write on the field path", "T3 caller arrays and shared tables reach no in-place sink", "T4 method forms leave the receiver unchanged", "T5 no read-only view left in an object", "T6 no module-level mutable state written"]
     g, seen = t1_t2(repo, res, ROOTS)
+    t6(repo, res, g, seen)
     # T1 instances must include the in-place tiling of getBH_level2 unless tiling no longer writes objects at all
     extra = {}
     try:
